@@ -6,6 +6,8 @@ set -u
 SRC=$1; PROP=$2; shift 2
 export GOFLAGS=-mod=mod GOPROXY=off
 WT=/tmp/seedchk.$$
+MODE=${MODE:-both}
+if [ "$MODE" != check ]; then
 git -C /repo worktree add -q --detach $WT HEAD || exit 2
 PKG=$(python3 -c "import json;print(json.load(open('$SRC/meta.json'))['demo_package_dir'])")
 cd $WT
@@ -18,6 +20,8 @@ echo "== demo WITH change (must fail)"; (cd $WT && timeout 600 go test -count=1 
 rm $WT/$PKG/zz_seed_demo_test.go
 echo "== existing tests of $PKG with change (must pass)"; (cd $WT && timeout 900 go test -count=1 -vet=off ./$PKG 2>&1 | tail -2)
 cd /; git -C /repo worktree remove --force $WT
+fi
+if [ "$MODE" = confirm ]; then exit 0; fi
 echo "== my check on /repo with the change applied"
 git -C /repo apply $SRC/patch.diff || exit 2
 (cd /verif && timeout 1800 ./bin/gosym check "$@" $PROP quick 2>&1 | cut -c1-400 | head -20; echo "check exit=${PIPESTATUS[0]}")
